@@ -160,7 +160,15 @@ func wellFormed(k wfCase) (string, []byte, string, []byte) {
 		return "type3.InnerTokenRequest", in.Marshal(), o.Fields(), o.Hand()
 	case "chal":
 		names := []string{"a", "issuer.example", strings.Repeat("n", 255), strings.Repeat("n", 256), strings.Repeat("x", 65535)}
-		origins := [][]string{{""}, {"a"}, {"origin.example"}, {"a.example", "b.example"}, {"a", "b", "c"}, {strings.Repeat("o", 65535)}, {strings.Repeat("o", 32767), strings.Repeat("p", 32767)}}
+		many := func(n int) []string {
+			l := make([]string, n)
+			for i := range l {
+				l[i] = fmt.Sprintf("o%d.example", i)
+			}
+			return l
+		}
+		origins := [][]string{{""}, {"a"}, {"origin.example"}, {"a.example", "b.example"}, {"a", "b", "c"}, {strings.Repeat("o", 65535)}, {strings.Repeat("o", 32767), strings.Repeat("p", 32767)},
+			many(63), many(64), many(65), many(255), many(256), many(257), many(1000), {"a", "", "b"}, {"", ""}}
 		c := tokens.TokenChallenge{TokenType: uint16(k.A), IssuerName: names[k.B], RedemptionNonce: fill(lbl, k.C), OriginInfo: origins[k.D]}
 		o := oChallenge{&c, new(bool)}
 		return "tokens.TokenChallenge", c.Marshal(), o.Fields(), o.Hand()
@@ -546,7 +554,7 @@ func main() {
 	for _, t := range []int{1, 2, 3, 5, 0, 0xffff} {
 		for nm := 0; nm < 5; nm++ {
 			for _, nl := range []int{0, 1, 31, 32} {
-				for or := 0; or < 7; or++ {
+				for or := 0; or < 16; or++ {
 					wf = append(wf, wfCase{Kind: "chal", A: t, B: nm, C: nl, D: or})
 				}
 			}
